@@ -332,8 +332,13 @@ def _ag_stage_model(cx, rep, port, p, mod, fd):
         return dict(ctx=ctx, w0=w0, fas=fas, k1=k1, k2=k2, made=made, v1=v1, v2=v2, err1=err1, err2=err2, state1=state1, ags=ags, incs2=list(incs), keys=keys,
                     stage=ex.run.state.get((ctx.uid, 'aggregation_stage'), 1), sub=ex.run.state.get((made[0].uid, 'subwriter')) if made else None)
 
+    raw_keys = []
+
     def key_is(v, k):
-        return v is k or (isinstance(v, AX.Abs) and v.kind == 'Json' and v.props['of'] is k)
+        if v is k:
+            raw_keys.append(v)
+            return True
+        return isinstance(v, AX.Abs) and v.kind == 'Json' and v.props['of'] is k
     bad = {}
     try:
         # main scenario: SELECT agg1(..), plain, agg0(..) GROUP BY .. ; tokens carry the marker ids 1 and 0 (registration order differs from column order)
@@ -385,6 +390,8 @@ def _ag_stage_model(cx, rep, port, p, mod, fd):
             'key set': 'the group key is recorded for every record, in both stages'}
     for k_ in ('stage 1 writer', 'stage 1 guard', 'stage 1 columns', 'stage 1 nested aggregate check', 'stage transition', 'stage 2', 'key set'):
         rep.decide(k_ not in bad, k_, fd, good[k_] + ' (abstract run of two records)', bad.get(k_, ''))
+    # how the group key reaches the aggregators and the key set: as it is (python) / as the JSON text of the whole key (javascript)
+    cx.__dict__.setdefault('_ag_key_raw', {})[port] = bool(raw_keys)
     return True
 
 
@@ -668,7 +675,16 @@ def rule_ag_keyord(cx, rep, port):
 
         def json_of_key(e):
             return isinstance(e, ast.Call) and dotted(e.func) == 'JSON.stringify' and len(e.args) == 1 and is_name(e.args[0], kparam)
-        if not rebinds:
+        if not rebinds and cx.__dict__.get('_ag_key_raw', {}).get(port) is None:
+            try:
+                from ..core import Report as _R
+                _ag_stage_model(cx, _R('tmp', 'quick'), port, p, mod, sa_fd)
+            except Exception:
+                pass
+        if not rebinds and cx.__dict__.get('_ag_key_raw', {}).get(port) is not None:
+            rawk = cx.__dict__['_ag_key_raw'][port]
+            rep.decide(not rawk, 'key encoding', sa_fd, 'the aggregators and the key set receive JSON.stringify(key) (abstract run of select_aggregated)', 'a group key reaches the aggregators / the key set as it is, not as the JSON text of the whole key array: the raw value of one group collides with the JSON text of another and cannot be told apart when the keys are restored for sorting')
+        elif not rebinds:
             rep.undecided('key encoding', sa_fd, 'serialisation of the group key not found in select_aggregated')
         else:
             bad_enc = None
